@@ -208,6 +208,8 @@ pub struct WorldB {
     pub warm_queue: std::collections::VecDeque<Op>,
     /// scripted scenario in progress (generator state only: every step it emits is an ordinary recorded operation)
     pub scn: Option<Scn>,
+    /// the current server tick sends a payload to every session between update() and the per-client pass
+    pub stream_first: bool,
 }
 
 pub fn make_world(cfg: &Cfg) -> Box<dyn World> {
@@ -323,6 +325,7 @@ impl WorldB {
             token_roundtrips: 0,
             warm_queue: std::collections::VecDeque::new(),
             scn: None,
+            stream_first: false,
         };
         // optional warm-up (part of the recorded trace, emitted through gen): clients are created and a few clean rounds run,
         // so that most of the run happens on established sessions
